@@ -202,9 +202,11 @@ Definition get_field (m : mvar) (path : list string) : res pv :=
   | ["lun"%string] => Ok (PInt (Z.of_N (mv_lun m)))
   | [a] =>
       match index_of a (map f_name (layout_fields (mv_layout m))) 0 with
-      | Some i => match nth_error (mv_env m) i with
-                  | Some v => Ok (val_to_pv v)
-                  | None => Err (OtherError AttributeError)
+      | Some i => match nth_error (layout_fields (mv_layout m)) i, nth_error (mv_env m) i with
+                  | Some f, Some (VBits vs) =>        (* the bit-field object itself (x = rsp.a; ... x.b) *)
+                      Ok (PObj "bits" (combine (f_bitnames f) (map (fun n => PInt (Z.of_N n)) vs)))
+                  | _, Some v => Ok (val_to_pv v)
+                  | _, None => Err (OtherError AttributeError)
                   end
       | None => Err (OtherError AttributeError)
       end
